@@ -37,7 +37,7 @@ REQUIRE_CLAUSES_ALL = ["bs_within_limits", "bs_aims_at_bp_per_bin", "bs_higher_d
                    "ms_none_rejected", "ab_sizes_from_depths", "ab_wgs_depth", "ab_target_depth_range",
                    "ab_hybrid_anti_depth", "ab_requires_targets",
                    "et_rows", "et_chrm", "et_tumor_count", "et_normal_count", "it_assigned", "it_log2",
-                   "it_one_per_subclone", "pt_fields", "up_name", "ip_rows", "ip_log2", "ip_warning", "mt_rows",
+                   "it_one_per_subclone", "rt_same_intervals", "pt_fields", "up_name", "ip_rows", "ip_log2", "ip_warning", "mt_rows",
                    "mt_segments", "mt_stdev", "mt_mad", "mt_iqr", "mt_bivar", "mt_mismatch_rejected", "snp_rows"]
 
 REQUIRE_CLAUSES = list(REQUIRE_CLAUSES_ALL)
@@ -604,6 +604,13 @@ def execute_th(inp):
                                    ",".join(dec(v) for v in inp["p"])]) + "\n")
             rec["parsed"] = {"ok": False, "nll": 0, "mu_normal": 0, "mu_tumors": [], "C": [], "p": []}
             rec["out"] = []
+            rec["exp"], rec["exp_ok"] = [], False
+            try:        # round trip: the intervals export_theta writes for these very segments
+                tab = export.export_theta(segarr, None)
+                rec["exp"] = [[int(a_), int(b_)] for a_, b_ in zip(tab["start"], tab["end"])]
+                rec["exp_ok"] = True
+            except Exception:
+                pass
 
             def enc(v):
                 return -1 if v is None else int(round(v * 1000))
@@ -797,7 +804,7 @@ def random_import_theta(ctx: Ctx, n):
         mu = [rng.randint(1, 900)] + [rng.randint(1, 900) for _ in range(nsub)]
         out.append({"op": "import_theta", "segs": segs, "ploidy": rng.choice([2, 2, 2, 1, 3, 4]), "C": C,
                     "nll": rng.randint(1, 10 ** 6), "mu": mu, "p": [(-1 if row[0] < 0 else rng.randint(0, 1000)) for row in C],
-                    "parsed": {}, "out": [], "err": ""})
+                    "parsed": {}, "out": [], "exp": [], "exp_ok": False, "err": ""})
     return out
 
 
